@@ -99,6 +99,31 @@ Proof.
       * eexists. split; [reflexivity|]. apply SS_same. reflexivity.
 Qed.
 
+(** completeness: a scale within tolerance of a snap target IS snapped *)
+Lemma snap_scale_complete s tol : 0 < tol ->
+  (1 - tol <= Qabs s -> forall k : Z, Qabs (s - inject_Z k) < tol ->
+     exists n : Z, snap_scale s tol = Ok (inject_Z n) /\ Qabs (s - inject_Z n) < tol) /\
+  (Qabs s < 1 - tol -> tol <= Qabs s -> forall k : Z, Qabs (1 / s - inject_Z k) < tol ->
+     exists n : Z, n <> 0%Z /\ snap_scale s tol = Ok (1 / inject_Z n) /\ Qabs (1 / s - inject_Z n) < tol).
+Proof.
+  intros Ht. split.
+  - intros Hs k Hk. unfold snap_scale.
+    assert (E1 : Qle_bool (1 - tol) (Qabs s) = true) by (apply Qle_bool_iff; exact Hs). rewrite E1.
+    destruct (maybe_int_z_complete s tol k Hk) as (n & En).
+    exists n. unfold maybe_int. rewrite En. split; [reflexivity|].
+    apply maybe_int_z_some in En. tauto.
+  - intros Hs Hl k Hk.
+    destruct (snap_scale_spec s tol Ht) as (r & E & R).
+    unfold snap_scale in E |- *.
+    assert (E1 : Qle_bool (1 - tol) (Qabs s) = false) by (apply Qle_bool_false; exact Hs). rewrite E1 in *.
+    assert (E2 : Qltb (Qabs s) tol = false) by (apply Qltb_false; exact Hl). rewrite E2 in *.
+    destruct (Qeq_bool s 0); [discriminate|].
+    destruct (maybe_int_z_complete (1 / s) tol k Hk) as (n & En). rewrite En in *.
+    destruct (n =? 0)%Z eqn:E5; [discriminate|].
+    exists n. split; [apply Z.eqb_neq; exact E5|]. split; [reflexivity|].
+    apply maybe_int_z_some in En. tauto.
+Qed.
+
 (** snap_scale of its own result changes nothing *)
 Lemma snap_scale_of_Z n tol : 0 < tol -> tol < 1 # 2 -> n <> 0%Z ->
   snap_scale (inject_Z n) tol = Ok (inject_Z n).
